@@ -13,6 +13,7 @@ import (
 	"net/http"
 	"net/url"
 	"os"
+	"sort"
 	"strconv"
 	"strings"
 	"sync/atomic"
@@ -69,6 +70,30 @@ func NewGcsEmu(opts Options) *GcsEmu {
 
 func lockName(bucket string, filename string) string {
 	return bucket + "/" + filename
+}
+
+// lockAll acquires the locks for all the given keys, each once and in one global order (so that two requests
+// locking several objects cannot deadlock), and returns a function that releases them again.
+func (g *GcsEmu) lockAll(ctx context.Context, keys ...string) (func(), error) {
+	sorted := append([]string(nil), keys...)
+	sort.Strings(sorted)
+	var held []string
+	unlock := func() {
+		for i := len(held) - 1; i >= 0; i-- {
+			g.locks.Unlock(held[i])
+		}
+	}
+	for i, key := range sorted {
+		if i > 0 && key == sorted[i-1] {
+			continue
+		}
+		if !g.locks.Lock(ctx, key) {
+			unlock()
+			return nil, ctx.Err()
+		}
+		held = append(held, key)
+	}
+	return unlock, nil
 }
 
 // Register the emulator's HTTP handlers on the given mux.
@@ -128,14 +153,14 @@ func (g *GcsEmu) Handler(w http.ResponseWriter, r *http.Request) {
 			if strings.HasSuffix(r.URL.Path, "/o") {
 				g.handleGcsListBucket(ctx, baseUrl, w, r.URL.Query(), bucket)
 			} else {
-				g.handleGcsMetadataRequest(baseUrl, w, bucket, object)
+				g.handleGcsMetadataRequest(ctx, baseUrl, w, bucket, object)
 			}
 		} else {
 			alt := r.URL.Query().Get("alt")
 			if alt == "media" || (p.IsPublic && alt == "") {
-				g.handleGcsMediaRequest(baseUrl, w, r.Header.Get("Accept-Encoding"), bucket, object)
+				g.handleGcsMediaRequest(ctx, baseUrl, w, r.Header.Get("Accept-Encoding"), bucket, object)
 			} else if alt == "json" || (!p.IsPublic && alt == "") {
-				g.handleGcsMetadataRequest(baseUrl, w, bucket, object)
+				g.handleGcsMetadataRequest(ctx, baseUrl, w, bucket, object)
 			} else {
 				// should never happen?
 				g.gapiError(w, http.StatusBadRequest, fmt.Sprintf("unsupported value for alt param to GET: %q\n%s", alt, maybeNotImplementedErrorMsg))
@@ -207,12 +232,19 @@ func (g *GcsEmu) handleGcsCompose(ctx context.Context, baseUrl HttpBaseUrl, w ht
 			},
 		}
 	}
-	var obj *storage.Object
-	if err := g.locks.Run(ctx, lockName(bucket, dst.filename), func(_ context.Context) error {
-		var err error
-		obj, err = g.finishCompose(baseUrl, bucket, dst, srcs, req.Destination)
-		return err
-	}); err != nil {
+	// Lock the destination and every source, so that the sources are read as they are at one instant.
+	keys := []string{lockName(bucket, dst.filename)}
+	for _, src := range srcs {
+		keys = append(keys, lockName(bucket, src.filename))
+	}
+	unlock, err := g.lockAll(ctx, keys...)
+	if err != nil {
+		g.gapiError(w, httpStatusCodeOf(err), fmt.Sprintf("failed to compose objects: %s", err))
+		return
+	}
+	obj, err := g.finishCompose(baseUrl, bucket, dst, srcs, req.Destination)
+	unlock()
+	if err != nil {
 		g.gapiError(w, httpStatusCodeOf(err), fmt.Sprintf("failed to compose objects: %s", err))
 		return
 	}
@@ -277,8 +309,16 @@ func (g *GcsEmu) handleGcsDelete(ctx context.Context, w http.ResponseWriter, buc
 	w.WriteHeader(http.StatusNoContent)
 }
 
-func (g *GcsEmu) handleGcsMediaRequest(baseUrl HttpBaseUrl, w http.ResponseWriter, acceptEncoding, bucket, filename string) {
-	obj, contents, err := g.store.Get(baseUrl, bucket, filename)
+func (g *GcsEmu) handleGcsMediaRequest(ctx context.Context, baseUrl HttpBaseUrl, w http.ResponseWriter, acceptEncoding, bucket, filename string) {
+	// Read under the object's lock: a store may need several steps to read an object, and a writer must not
+	// get in between (the result would mix two versions).
+	var obj *storage.Object
+	var contents []byte
+	err := g.locks.Run(ctx, lockName(bucket, filename), func(ctx context.Context) error {
+		var err error
+		obj, contents, err = g.store.Get(baseUrl, bucket, filename)
+		return err
+	})
 	if err != nil {
 		g.gapiError(w, http.StatusInternalServerError, fmt.Sprintf("failed to check existence of %s/%s: %s", bucket, filename, err))
 		return
@@ -322,7 +362,7 @@ func (g *GcsEmu) handleGcsMediaRequest(baseUrl HttpBaseUrl, w http.ResponseWrite
 	}
 }
 
-func (g *GcsEmu) handleGcsMetadataRequest(baseUrl HttpBaseUrl, w http.ResponseWriter, bucket string, filename string) {
+func (g *GcsEmu) handleGcsMetadataRequest(ctx context.Context, baseUrl HttpBaseUrl, w http.ResponseWriter, bucket string, filename string) {
 	var obj interface{}
 	var err error
 	if filename == "" {
@@ -332,8 +372,13 @@ func (g *GcsEmu) handleGcsMetadataRequest(baseUrl HttpBaseUrl, w http.ResponseWr
 			obj = b
 		}
 	} else {
+		// read under the object's lock, see handleGcsMediaRequest
 		var o *storage.Object
-		o, err = g.store.GetMeta(baseUrl, bucket, filename)
+		err = g.locks.Run(ctx, lockName(bucket, filename), func(ctx context.Context) error {
+			var err error
+			o, err = g.store.GetMeta(baseUrl, bucket, filename)
+			return err
+		})
 		if o != nil {
 			obj = o
 		}
@@ -424,18 +469,22 @@ func (g *GcsEmu) handleGcsCopy(ctx context.Context, baseUrl HttpBaseUrl, w http.
 	b2 := destParts[0]
 	f2 := destParts[1]
 
-	// Must lock the destination object.
+	// Must lock the destination object, and the source so that it is copied as it is at one instant.
 	var obj *storage.Object
-	err := g.locks.Run(ctx, lockName(b2, f2), func(ctx context.Context) error {
-		if ok, err := g.store.Copy(b1, f1, b2, f2); err != nil {
-			return err
-		} else if !ok {
-			return nil // file missing
-		} else {
-			obj, err = g.store.GetMeta(baseUrl, b2, f2)
-			return err
-		}
-	})
+	unlock, err := g.lockAll(ctx, lockName(b1, f1), lockName(b2, f2))
+	if err == nil {
+		err = func() error {
+			defer unlock()
+			if ok, err := g.store.Copy(b1, f1, b2, f2); err != nil {
+				return err
+			} else if !ok {
+				return nil // file missing
+			} else {
+				obj, err = g.store.GetMeta(baseUrl, b2, f2)
+				return err
+			}
+		}()
+	}
 	if err != nil {
 		g.gapiError(w, httpStatusCodeOf(err), fmt.Sprintf("failed to copy: %s", err))
 		return
